@@ -36,6 +36,10 @@ pub struct ChannelContext { pub cfg: ChannelConfig, pub prev: Option<ChannelConf
 impl ChannelContext {
     #[verifier::external_body] pub fn config(&self) -> (r: ChannelConfig) ensures r == self.cfg { unimplemented!() }
     #[verifier::external_body] pub fn prev_config(&self) -> (r: Option<ChannelConfig>) ensures r == self.prev { unimplemented!() }
+    // accessors of the CURRENT config (so that a change that reads the current policy where the passed-in one is meant is verified, not rejected)
+    #[verifier::external_body] pub fn get_fee_proportional_millionths(&self) -> (r: u32) ensures r == self.cfg.forwarding_fee_proportional_millionths { unimplemented!() }
+    #[verifier::external_body] pub fn get_outbound_forwarding_fee_base_msat(&self) -> (r: u32) ensures r == self.cfg.forwarding_fee_base_msat { unimplemented!() }
+    #[verifier::external_body] pub fn get_cltv_expiry_delta(&self) -> (r: u16) ensures r >= self.cfg.cltv_expiry_delta { unimplemented!() }
     #[verifier::external_body] pub fn get_counterparty_htlc_minimum_msat(&self) -> (r: u64) ensures r == self.counterparty_htlc_minimum_msat { unimplemented!() }
 }
 pub struct FundedChannel { pub context: ChannelContext }
@@ -56,7 +60,7 @@ fn internal_htlc_satisfies_config(
     proof { assert(amt_to_forward as int * (config.forwarding_fee_proportional_millionths as int) >= 0) by (nonlinear_arith)
                 requires amt_to_forward >= 0, config.forwarding_fee_proportional_millionths >= 0; }
 
-		let fee = amt_to_forward.checked_mul(config.forwarding_fee_proportional_millionths as u64)
+		let fee = amt_to_forward.checked_mul(self.context.get_fee_proportional_millionths() as u64)
 			.and_then(|prop_fee: u64| -> (o: Option<u64>)
         ensures o == (if prop_fee as int / 1000000 + config.forwarding_fee_base_msat as int <= u64::MAX { Some((prop_fee as int / 1000000 + config.forwarding_fee_base_msat as int) as u64) } else { None::<u64> })
         { (prop_fee / 1000000).checked_add(config.forwarding_fee_base_msat as u64) });
@@ -321,6 +325,42 @@ proof fn vac__must_go_on_chain_for(htlc: &HTLCOutputInCommitment, htlc_outbound:
     requires height <= 0x7fff_ffff, htlc.cltv_expiry <= 0x7fff_ffff,
     ensures false
 {}
+fn htlc_is_ours_to_time_out(htlc: &HTLCOutputInCommitment, which_commitment: u8) -> (r: bool)
+    ensures
+    r == ((which_commitment == 0) == htlc.offered),
+ {
+        
+        let m_holder_tx = if which_commitment == 0 { true } else if which_commitment == 1 { false } else { false };
+        let htlc_outbound = m_holder_tx == htlc.offered; htlc_outbound
+    }
+
+// the only case in which the deadlines are not looked at: a spend of the funding output is already in a block
+pub struct SpendTxid { pub id: u64 }
+pub enum MonOnchainEvent { FundingSpendConfirmation { on_local_output_csv: Option<u16> }, HTLCUpdate { id: u64 }, MaturingOutput { id: u64 }, Other }
+pub struct MonEventEntry { pub height: u32, pub event: MonOnchainEvent }
+pub struct DeadlineMonitor { pub funding_spend_confirmed: Option<SpendTxid>, pub funding_spend_seen: bool, pub holder_tx_signed: bool, pub alternative_funding_confirmed: Option<(SpendTxid, u32)>, pub onchain_events_awaiting_threshold_conf: Vec<MonEventEntry> }
+pub open spec fn funding_spend_in_a_block(m: &DeadlineMonitor) -> bool {
+    m.funding_spend_confirmed is Some || (exists|k: int| 0 <= k < m.onchain_events_awaiting_threshold_conf@.len() && (#[trigger] m.onchain_events_awaiting_threshold_conf@[k]).event is FundingSpendConfirmation)
+}
+impl DeadlineMonitor {
+fn htlc_deadlines_are_not_looked_at(&self) -> (r: bool)
+    ensures
+    r == funding_spend_in_a_block(self),
+ {
+        
+        let mut __found = false; let mut __i: usize = 0;
+        while __i < self.onchain_events_awaiting_threshold_conf.len()
+            invariant __i <= self.onchain_events_awaiting_threshold_conf@.len(), __found == (exists|k: int| 0 <= k < __i && (#[trigger] self.onchain_events_awaiting_threshold_conf@[k]).event is FundingSpendConfirmation),
+            decreases self.onchain_events_awaiting_threshold_conf@.len() - __i
+        { let event = &self.onchain_events_awaiting_threshold_conf[__i]; let __b: bool = match event.event {
+				MonOnchainEvent::FundingSpendConfirmation { .. } => true,
+				_ => false,
+			}; if __b { __found = true; } __i = __i + 1; }
+        if self.funding_spend_confirmed.is_some() || __found { return true; }
+        false
+    }
+
+}
 // ---- what is actually offered downstream (deep R15 slice of ChannelManager::process_forward_htlcs: the first three arguments of the queue_add_htlc call) ----
 #[derive(Clone, Copy)] pub struct FwdPaymentHash(pub [u8; 32]);
 fn values_offered_downstream(outgoing_amt_msat: &u64, payment_hash: &FwdPaymentHash, outgoing_cltv_value: &u32) -> (r: (u64, FwdPaymentHash, u32))
